@@ -5,3 +5,8 @@ Open Scope string_scope.
 
 Lemma no_append_onto_argument : gen_appends_onto_argument = [].
 Proof. vm_compute. reflexivity. Qed.
+
+(** the bodies of লেন / এড / রিমুভ are the ones Model/Eval.v's [call_native] transcribes (Spec/NativeMechanism.v) *)
+From Borno Require Import NativeMechanism.
+Lemma native_bodies_match_C11 : pick array_natives gen_native_trace = pick array_natives native_trace_expected.
+Proof. vm_compute. reflexivity. Qed.
